@@ -3,6 +3,7 @@ From Coq Require Import List String.
 From SCC Require Import Base.Sexp Model.RunBase Model.RunPM Model.RunX86.
 From SCC Require Import Base.Sexp Model.RunBase Model.RunPM Model.RunStages.
 From SCC Require Import Model.RunA64.
+From SCC Require Import Base.Sexp Model.RunBase Model.RunShrink.
 From SCC Require Import Model.RunFun2Core.
 From SCC Require Import Model.RunSubst.
 From SCC Require Import Model.RunRT.
@@ -25,6 +26,8 @@ Definition dispatch (cmd : string) (input : string) : string :=
   | "c10-x86" => run_c10_x86 input
   | "stages" => run_stages input
   | "codegen-a64" => run_codegen_a64 input
+  | "shrink" => run_shrink input
+  | "shrink-why" => run_shrink_why input
   | "fun2core" => run_fun2core input
   | "subst" => run_subst input
   | "subst-corr" => run_subst_corr input
